@@ -20,6 +20,15 @@ class TranslateError(Exception):
 # Class fields that are caches, not settings: writes to them are dropped from the model (documented in
 # DESIGN.md §C20: `deterministic_probes._set_state` also resets the probe-vector cache on every state change).
 IGNORED_CLASS_FIELDS = {("deterministic_probes", "probe_vectors")}
+# Documented constructor defaults (the public API as described in the class docstrings / signatures of the pinned
+# release): an omitted argument means THIS value inside the block, whatever the enclosing blocks set.  Per-dtype
+# settings are absent on purpose: there `None` is documented to mean "keep the current value".
+DOCUMENTED_CTOR_DEFAULTS = {
+    "*flag*": {"state": "True"},                      # every _feature_flag subclass: `with flag():` switches it on
+    "fast_pred_var": {"state": "True", "num_probe_vectors": "1"},
+    "fast_computations": {"covar_root_decomposition": "True", "log_prob": "True", "solves": "True"},
+    "linalg_dtypes": {"default": "torch.double"},
+}
 # observer -> constructor parameter that it must show inside the block
 OBS_PARAM = {"on()": "state", "value()": "value", "value(torch.float)": "float_value",
              "value(torch.double)": "double_value", "value(torch.half)": "half_value",
@@ -655,6 +664,17 @@ class Translator:
         L.append("/-- (class, field, documented default) parsed from the class docstrings -/")
         L.append("def docDefaults : List (Nat × Nat × Val) := [\n" + ",\n".join(docd) + "]\n")
         q = lambda s: '"' + s.replace("\\", "\\\\").replace('"', '\\"') + '"'
+        ctor = []
+        for k in self.order:
+            d = self.descs[k]
+            pn = [p for p, _ in d["params"]]
+            tab = dict(DOCUMENTED_CTOR_DEFAULTS.get(d["name"], {}))
+            if not tab and pn == ["state"] and "on()" in d["observers"]:
+                tab = dict(DOCUMENTED_CTOR_DEFAULTS["*flag*"])
+            for p_, v_ in tab.items():
+                ctor.append(f"  ({self.T.c(d['name'])}, {self.T.f(p_)}, {self.lean_val(v_)})")
+        L.append("/-- (class, constructor parameter, documented default) — from the hand-written table in the translator -/")
+        L.append("def documentedCtorDefaults : List (Nat × Nat × Val) := [\n" + ",\n".join(ctor) + "]\n")
         L.append("def clsNames : List String := [" + ", ".join(q(s) for s in self.T.cls) + "]")
         L.append("def fldNames : List String := [" + ", ".join(q(s) for s in self.T.fld) + "]")
         L.append("def atomNames : List String := [" + ", ".join(q(s) for s in self.T.atom) + "]")
